@@ -161,8 +161,8 @@ class FPEngine(Engine):
             return mk_bool(z3.Not(self.truth(v)))
         return super().ev_UnaryOp(n)
 
-    def ext_result(self, summ, d):
+    def ext_result(self, summ, d, args=None):
         r = summ.get("returns")
         if r == "Int":
             return V("int", z3.BitVec(fresh_name("ext_" + d.replace(".", "_")), W))
-        return super().ext_result(summ, d)
+        return super().ext_result(summ, d, args)
